@@ -733,7 +733,7 @@ Definition on_message (e : env) (from : nid) (m : msg) (n : node) : S :=
     | Some cbk =>
       let s := upd (fun n => n <| wait_reply := adel req (wait_reply n) |>) s in
       if negb okr then fire cbk 0 a s
-      else if a <=? applied (nd s) then raise EXC_ASSERT s
+      else if a <=? applied (nd s) then fire cbk 0 LEADER_CHANGED s
       else upd (fun n => n <| wait_commit :=
                   aset a ((match aget a (wait_commit n) with Some l => l | None => [] end) ++ [(b, cbk)])
                        (wait_commit n) |>) s
